@@ -6,6 +6,7 @@
 //    (See accompanying file LICENSE_1_0.txt or copy at
 //          https://www.boost.org/LICENSE_1_0.txt)
 
+#include <algorithm>
 #include <cstddef>
 #include <functional>
 #include <iostream>
@@ -90,14 +91,18 @@ namespace parmcb {
                 /*
                  * Heuristic in case number of signed edges is small compared to the number of vertices.
                  */
+                // All ranks must process the signed edges in the same order. The order of edge
+                // descriptors depends on the memory layout of each process, use the forest index.
                 std::map<Edge, std::set<Edge>> hidden_edges_per_edge;
-                std::vector<Edge> signed_edges_as_vector;
+                std::vector<Edge> signed_edges_as_vector(signed_edges.begin(), signed_edges.end());
+                std::sort(signed_edges_as_vector.begin(), signed_edges_as_vector.end(),
+                        [&forest_index](const Edge &a, const Edge &b) {
+                            return forest_index(a) < forest_index(b);
+                        });
                 std::set<Edge> tmp_signed_edges = signed_edges;
-                while (!tmp_signed_edges.empty()) {
-                    auto bit = tmp_signed_edges.begin();
-                    hidden_edges_per_edge.insert(std::make_pair(*bit, tmp_signed_edges));
-                    signed_edges_as_vector.push_back(*bit);
-                    tmp_signed_edges.erase(bit);
+                for (const Edge &se : signed_edges_as_vector) {
+                    hidden_edges_per_edge.insert(std::make_pair(se, tmp_signed_edges));
+                    tmp_signed_edges.erase(se);
                 }
 
                 std::vector<Edge> local_signed_edges_as_vector;
